@@ -650,6 +650,20 @@ def _impl_pk(case, key, tmp):
         prev = (st.st_mtime_ns, st.st_ino)
     info['texts'] = texts
     info['size'] = os.path.getsize(text)
+    # another writer (a loaded copy holding the value from before the edit) saves over the same path, then the
+    # unchanged original model is saved there again: the files must be the original's again
+    try:
+        other = ExcelCompiler.from_file(text)
+        other.set_value(case['cell'], c01._py(case['edit'][0]))
+        other.evaluate('Sheet1!A2')
+        other.to_file(base, file_types=('pkl', fmt2))
+        comp.to_file(base, file_types=('pkl', fmt2))
+        again = hashlib.sha256(open(text, 'rb').read()).hexdigest()[:16]
+        if again != texts[-1]:
+            info['fails'].append(f'after a copy holding {core.show(case["edit"][0])} in {case["cell"]} was saved over the '
+                                 f'same path, saving the unchanged original again leaves a different text file')
+    except Exception as exc:   # noqa
+        info['fails'].append(f'foreign-writer history raised {core.canon_exc(exc)}')
 
     def values(m):
         out = []
